@@ -63,6 +63,10 @@ def generate(rng, tier):
         cfg['discount'] = rng.choice([0.01, 0.1, 0.3])
         cfg['estimate_step'] = rng.random() < 0.5
         cfg['alpha'] = rng.choice([1.0, 10.0, 0.1])
+        # projected variant on an instance where the projection provably
+        # cannot raise the objective (separable quadratic, minimiser inside
+        # the box), so that monotonicity is still owed
+        cfg['proj'] = rng.random() < 0.35
         plan['config'] = cfg
         plan['niter'] = rng.randint(2, 25)
     elif w == 'power':
@@ -143,6 +147,19 @@ def _gen_saddle(rng, solver):
         cfg['accel_frac'] = round(rng.uniform(0.2, 1.0), 3)
     cfg['lam_relax'] = rng.choice([1.0, 1.0, 0.7, 1.5])
     cfg['sigma'] = rng.choice([0.5, 1.0, 2.0])
+    if nops == 2:
+        r = rng.random()
+        if r < 0.3:
+            # the same functional object at both positions of g (needs equal
+            # range spaces: the second operator is drawn like the first)
+            cfg['share_g'] = True
+            if rng.random() < 0.6:
+                cfg['Ls'][1] = dict(cfg['Ls'][0])
+                cfg['Ls'][1]['seed'] = rng.getrandbits(32)
+    if solver == 'douglas_rachford' and rng.random() < 0.3:
+        # optional infimal-convolution terms l_i of douglas_rachford_pd: a
+        # Huber term is passed as g_i = lam |.|_1, l_i = lam/(2 gamma) |.|^2
+        cfg['use_l'] = True
     return cfg
 
 
@@ -202,16 +219,45 @@ class Saddle(object):
             cfg['f'] = P.gen_func_for(frng, self.X, ffams)
         self.f = P.build_func(cfg['f'], self.X)
         self.gs = []
+        share = bool(cfg.get('share_g')) and not construct
         for i, L in enumerate(self.Ls):
             key = 'g%d' % i
+            if share and i > 0 and self.Ls[0].range == L.range and \
+                    'g0' in cfg and cfg.get(key, cfg['g0']) == cfg['g0']:
+                cfg[key] = cfg['g0']
+                self.gs.append(self.gs[0])
+                continue
             if key not in cfg:
                 gfams = ('l2sq', 'l2sq_trans', 'huber', 'quadpert_smooth') \
                     if accel == 'dual' else fams
+                if cfg.get('use_l') and i == 0:
+                    gfams = ('huber',)
                 cfg[key] = P.gen_func_for(frng, L.range, gfams)
                 if accel == 'dual' and cfg[key]['fam'] in ('sepsum', 'groupl1',
                                                            'l2sq_p'):
                     raise Reject('dual acceleration needs a smooth g')
             self.gs.append(P.build_func(cfg[key], L.range))
+        # douglas_rachford_pd(..., l=[...]): (g_i box l_i) with
+        # g_i = lam |.|_1 and l_i = lam / (2 gamma) |.|_2^2 is lam * Huber_gamma,
+        # which is what the harness models; IndicatorZero is the neutral l_i
+        self.dr_g, self.dr_l = self.gs, None
+        if cfg.get('use_l') and self.solver == 'douglas_rachford':
+            g2, l2, any_l = [], [], False
+            for i, (gi, L) in enumerate(zip(self.gs, self.Ls)):
+                gc, Y = cfg['g%d' % i], L.range
+                plain = cfg['X']['kind'] == 'rn' and \
+                    not isinstance(Y, o.ProductSpace) and \
+                    getattr(getattr(Y, 'weighting', None), 'const', None) == 1.0
+                if gc['fam'] == 'huber' and plain:
+                    lam_, gam_ = gc.get('lam', 1.0), gc.get('gamma', 0.5)
+                    g2.append(lam_ * F.L1Norm(Y))
+                    l2.append((lam_ / (2.0 * gam_)) * F.L2NormSquared(Y))
+                    any_l = True
+                else:
+                    g2.append(gi)
+                    l2.append(F.IndicatorZero(Y))
+            if any_l:
+                self.dr_g, self.dr_l = g2, l2
         self.h = None
         if self.solver in ('forward_backward', 'proximal_gradient',
                            'accelerated_proximal_gradient'):
@@ -244,7 +290,10 @@ class Saddle(object):
                      P.func_tag(cfg['h']) if self.h is not None else '-',
                      ','.join(P.op_tag(c) for c in cfg['Ls']),
                      cfg['X']['kind']) + (
-            ('accel-' + cfg['accel'],) if cfg.get('accel') else ())
+            ('accel-' + cfg['accel'],) if cfg.get('accel') else ()) + (
+            ('l-terms',) if self.dr_l is not None else ()) + (
+            ('shared-g',) if len(self.gs) > 1 and self.gs[0] is self.gs[1]
+            else ())
 
     # -- constructed solution: add linear terms ---------------------------
     def _construct(self, gg):
@@ -399,14 +448,15 @@ class Saddle(object):
             S.admm_linearized(x, self.f, self.gs[0], self.Ls[0], self.tau,
                               self.sigma, niter, callback=callback)
         elif s == 'douglas_rachford':
+            kw = {} if self.dr_l is None else {'l': self.dr_l}
             if default_steps:
-                S.douglas_rachford_pd(x, self.f, self.gs, self.Ls, niter,
-                                      callback=callback)
+                S.douglas_rachford_pd(x, self.f, self.dr_g, self.Ls, niter,
+                                      callback=callback, **kw)
             else:
-                S.douglas_rachford_pd(x, self.f, self.gs, self.Ls, niter,
+                S.douglas_rachford_pd(x, self.f, self.dr_g, self.Ls, niter,
                                       tau=self.tau, sigma=self.sigma,
                                       lam=self.cfg['lam_relax'],
-                                      callback=callback)
+                                      callback=callback, **kw)
         elif s == 'forward_backward':
             S.forward_backward_pd(x, self.f, self.gs, self.Ls, self.h,
                                   self.tau, self.sigma, niter,
@@ -672,10 +722,24 @@ def _steepest(plan, ctx):
         A = P.build_op(cfg['L'], X)
         P.adjoint_filter(A, cfg['seed'])
         g = np_rng('x0', cfg['seed'])
-        b = P.rand_elem(A.range, g)
+        projection = None
+        if cfg.get('proj'):
+            # f(x) = sum_i (a_i x_i - b_i)^2 w_i + 0.05 x_i^2 w_i is separable
+            # with minimiser c_i = a_i b_i / (a_i^2 + 0.05); clipping to a box
+            # that contains c moves every coordinate towards c_i or leaves it
+            a = P.rand_elem(X, g, positive=True)
+            A = o.MultiplyOperator(a, domain=X, range=X)
+            b = P.rand_elem(X, g, 2.0)
+            af, bf = elem_flat(a).astype(float), elem_flat(b).astype(float)
+            c = af * bf / (af ** 2 + 0.05)
+            lo = float(c.min() - g.uniform(0.0, 0.3))
+            hi = float(c.max() + g.uniform(0.0, 0.3))
+            projection = SI._box_projection(lo, hi)
+        else:
+            b = P.rand_elem(A.range, g)
         f = (F.L2NormSquared(A.range).translated(b) * A +
              0.05 * F.L2NormSquared(X))
-        x = P.rand_elem(X, g)
+        x = P.rand_elem(X, g, 3.0 if cfg.get('proj') else 1.0)
         ls = F.BacktrackingLineSearch(f, tau=cfg['tau'],
                                       discount=cfg['discount'],
                                       alpha=cfg['alpha'],
@@ -683,11 +747,13 @@ def _steepest(plan, ctx):
     N = plan['niter']
     seq = [float(f(x))]
     fired = {}
-    tags = (P.op_tag(cfg['L']), cfg['X']['kind'], cfg['tau'], cfg['discount'],
+    tags = (P.op_tag(cfg['L']) if not cfg.get('proj') else 'diag+box',
+            cfg['X']['kind'], cfg['tau'], cfg['discount'],
             cfg['estimate_step'])
     try:
         with seams.allocator(plan['garbage'], salt=5, fired=fired):
             F.steepest_descent(f, x, line_search=ls, maxiter=N, tol=0,
+                               projection=projection,
                                callback=lambda xx: seq.append(float(f(xx))))
     except (ValueError, AssertionError) as e:
         # the line search documents a ValueError when no decrease can be
